@@ -66,6 +66,27 @@ func stmtWords(s Stmt) []uint32 {
 		return []uint32{0xC0020340, 0x00000010}
 	case "suse": // v_add_u32 v7, vcc, s13, v7
 		return []uint32{0x320E0E0D}
+	// scalar loads from the input buffer (s[8:9], page aligned) whose byte range straddles a 64-byte line
+	case "sx2": // s_load_dwordx2 s[16:17], s[8:9], 0x3c   (4 + 4 bytes)
+		return []uint32{0xC0060404, 0x0000003C}
+	case "sx4a": // s_load_dwordx4 s[16:19], s[8:9], 0x34  (12 + 4)
+		return []uint32{0xC00A0404, 0x00000034}
+	case "sx4b": // ... 0x38  (8 + 8)
+		return []uint32{0xC00A0404, 0x00000038}
+	case "sx4c": // ... 0x3c  (4 + 12)
+		return []uint32{0xC00A0404, 0x0000003C}
+	case "sx8": // s_load_dwordx8 s[16:23], s[8:9], 0x30  (16 + 16)
+		return []uint32{0xC00E0404, 0x00000030}
+	case "sx8b": // ... 0x7c (4 + 28, second and third line)
+		return []uint32{0xC00E0404, 0x0000007C}
+	case "sx4n": // s_load_dwordx4 s[16:19], s[8:9], 0x40  (aligned: one request)
+		return []uint32{0xC00A0404, 0x00000040}
+	case "sux2": // v_add_u32 v7, vcc, s17, v7   (a register of the second half)
+		return []uint32{0x320E0E11}
+	case "sux4": // v_add_u32 v7, vcc, s19, v7
+		return []uint32{0x320E0E13}
+	case "sux8": // v_add_u32 v7, vcc, s23, v7
+		return []uint32{0x320E0E17}
 	case "use": // v_add_u32 v7, vcc, v7, v3
 		return []uint32{0x320E0707}
 	case "fstore": // flat_store_dword v[8:9], v7
@@ -84,7 +105,8 @@ func usesMem(prog []Stmt) bool {
 	for _, s := range prog {
 		switch s.Op {
 		case "sload", "fload", "floadu", "use", "fstore", "ldsw", "ldsr",
-			"gload", "gstore", "scload", "scstore", "floadg", "gloadg", "sload2", "suse":
+			"gload", "gstore", "scload", "scstore", "floadg", "gloadg", "sload2", "suse",
+			"sx2", "sx4a", "sx4b", "sx4c", "sx8", "sx8b", "sx4n", "sux2", "sux4", "sux8":
 			return true
 		}
 	}
@@ -177,7 +199,7 @@ func codeObject(ws []uint32, ldsBytes int) *insts.KernelCodeObject {
 	co.GroupSegmentByteSize = uint32(ldsBytes)
 	co.EnableSgprKernargSegmentPtr = true
 	co.ComputePgmRsrc2 = 1 << 7 // work-group id X in s2
-	co.WFSgprCount = 16
+	co.WFSgprCount = 32
 	co.WIVgprCount = 16
 	co.Version = insts.CodeObjectV3
 	return co
